@@ -50,6 +50,11 @@ const char *mcs_symbol(uintptr_t addr, char *buf, size_t n)
   if (addr - s->addr) snprintf(buf, n, "%s+%lu", s->name, (unsigned long)(addr - s->addr)); else snprintf(buf, n, "%s", s->name);
   return buf;
 }
+void *mcs_symbol_addr(const char *name)
+{
+  for (size_t i = 0; i < nsym; i++) if (!strcmp(SYM[i].name, name)) return (void *)SYM[i].addr;
+  return NULL;
+}
 /* name of the variable only (races and written globals are keyed by variable, not by byte) */
 static const char *varname(uintptr_t addr, char *buf, size_t n)
 {
